@@ -234,6 +234,8 @@ struct IoEx<const N: usize> {
     cur: usize,
     cur_op: Op,
     panicked: bool,
+    /// a drain was leaked earlier in this run
+    forgot: bool,
 }
 
 fn run_n<const N: usize>(script: &Script, keep_trace: bool) -> Outcome {
@@ -271,6 +273,7 @@ fn run_n<const N: usize>(script: &Script, keep_trace: bool) -> Outcome {
         cur: 0,
         cur_op: Op::IoWrite,
         panicked: false,
+        forgot: false,
     };
     ex.poison();
     for (i, st) in script.steps.iter().enumerate() {
@@ -366,7 +369,9 @@ impl<const N: usize> IoEx<N> {
                     | Op::ExtendFromSlice | Op::Fill | Op::IoExtendRef => cls::RET,
                     _ => self.own(),
                 };
-                self.fail(own | cls::PANIC_SPEC, format!("{} panicked: {m}", self.cur_op.name()));
+                // C10: after a leaked drain the buffer "behaves normally"
+                let fam = if self.forgot { cls::FORGET } else { 0 };
+                self.fail(own | fam | cls::PANIC_SPEC, format!("{} panicked: {m}", self.cur_op.name()));
                 None
             }
         }
@@ -975,7 +980,12 @@ impl<const N: usize> IoEx<N> {
                             // holds must come from the old contents, in order, and must not include
                             // the bytes handed out (identity = value while stamps are distinct)
                             self.stats.forgets += 1;
-                            let got: Vec<u8> = self.buf.iter().copied().collect();
+                            self.forgot = true;
+                            let (start, size) = self.buf.verif_layout();
+                            if size > N || (N > 0 && start >= N) {
+                                self.fail(cls::FORGET, format!("after leaking a drain the byte buffer is corrupt: front position {start}, length {size}, capacity {N}"));
+                            }
+                            let got: Vec<u8> = if self.fail.is_some() { Vec::new() } else { self.buf.iter().copied().collect() };
                             let old: Vec<u8> = self.model.iter().copied().collect();
                             let handed: Vec<u8> = sel[..lo].iter().chain(sel[hi..].iter()).copied().collect();
                             let mut it = old.iter();
